@@ -11,6 +11,7 @@ import (
 	"bufio"
 	"context"
 	"encoding/json"
+	"errors"
 	"flag"
 	"fmt"
 	"io"
@@ -37,6 +38,7 @@ type args struct {
 	K string `json:"k"`
 	C int    `json:"c"`
 	L string `json:"l"`
+	H int    `json:"h"` // wclose: id of the writer handle (the c of its wopen)
 }
 
 type step struct {
@@ -144,6 +146,17 @@ func (r *runner) run(steps []step, skip func(s step) bool, stopAfter int) (out o
 			openR.Close()
 		}
 	}()
+	// the files held open for writing (wopen ... wclose), by handle id
+	type openW struct {
+		f      fs_db.File
+		cancel func()
+	}
+	openWs := map[int]openW{}
+	defer func() {
+		for _, w := range openWs {
+			w.cancel() // an abandoned upload: the caller gives up its context
+		}
+	}()
 
 	for i, s := range steps {
 		if stopAfter >= 0 && i > stopAfter {
@@ -247,6 +260,26 @@ func (r *runner) run(steps []step, skip func(s step) bool, stopAfter int) (out o
 				out.mm = &mismatch{Step: i, Kind: "reader", Detail: fmt.Sprintf("a reader opened on %s (%d bytes, %d read at once) and finished after %v returned %s, err %v",
 					tagName(s.A.C), len(want), len(openRHead), between, describe(r.m, all, "ok", steps), err)}
 			}
+		case "wopen":
+			// Create: the file exists for nobody until it is closed; its context lives as long as the handle
+			var f fs_db.File
+			f, opErr = store(s.A.T).Create(ctx, r.m.Key(s.A.K))
+			if opErr == nil {
+				openWs[s.A.C] = openW{f: f, cancel: cancel}
+				cancel = func() {}
+			}
+		case "wclose":
+			w, ok := openWs[s.A.H]
+			if !ok {
+				continue // its wopen was left out
+			}
+			delete(openWs, s.A.H)
+			b := r.m.Content(s.A.C)
+			// the content in two writes (the second possibly empty), then Close
+			_, w1 := w.f.Write(b[:len(b)/2])
+			_, w2 := w.f.Write(b[len(b)/2:])
+			opErr = errors.Join(w1, w2, w.f.Close())
+			w.cancel()
 		case "gc":
 			opErr = d.GC()
 		case "reopen":
@@ -362,7 +395,7 @@ func (r *runner) run(steps []step, skip func(s step) bool, stopAfter int) (out o
 					out.mm = &mismatch{Step: i, Kind: "files", Detail: fmt.Sprintf("after %s at quiescence: %d content files for %d readable keys", s.Op, tree.NFiles, len(wantKeys[0]))}
 					break
 				}
-			} else if tree.NFiles != s.Nf {
+			} else if tree.NFiles != s.Nf && len(openWs) == 0 { // (when the file of an upload in progress appears is not specified)
 				if s.Op == "gc" && len(s.Dev) == 0 {
 					// C18: a collection removes exactly the versions that have a successor not newer than the horizon
 					// (the oldest open transaction's begin, or now): one content file per version it must keep
@@ -435,6 +468,9 @@ func owner(steps []step, mm *mismatch) string {
 	}
 	if mm.Kind == "collect" {
 		return "C18"
+	}
+	if mm.Kind != "hang" && mm.Kind != "files" && mm.Step < len(steps) && (steps[mm.Step].Op == "wopen" || steps[mm.Step].Op == "wclose") {
+		return "C12" // a created file: Close returns, and what Close acknowledged is what is read
 	}
 	if mm.Kind == "hang" {
 		// "no operation deadlocks" (C06), unless something more specific explains it (late operations are tried by ablation)
